@@ -227,15 +227,25 @@ int32_t g_p1, g_i;
 #include "c_ksctor.h"
 #include "extracted.inc"
 void h_ksctor_unbounded(void) {
+#ifdef VERIF_BOUND
+    int32_t n; __CPROVER_assume(n >= 1 && n <= VERIF_BOUND);       /* bounded arbiter */
+#else
     int32_t n; __CPROVER_assume(n >= 1 && n <= 1000000);
-    LweSample *raw = verif_alloc((size_t)n * T_ * BASE_ * sizeof(LweSample));
+#endif
+    LweSample *raw = verif_alloc((size_t)(n * T_ * BASE_) * sizeof(LweSample));
+    VERIF_SIZE_GUARD(raw, (size_t)(n * T_ * BASE_) * sizeof(LweSample));
     int32_t gi, gj, gh; __CPROVER_assume(gi >= 0 && gi < n && gj >= 0 && gj < T_ && gh >= 0 && gh < BASE_); g_i = gi; g_p1 = gi * T_ + gj;
     LweParams op; LweKeySwitchKey ks;
     LweKeySwitchKey__ctor(&ks, n, T_, BB_, &op, raw);
     __CPROVER_assert(ks.n == n && ks.t == T_ && ks.basebit == BB_ && ks.base == BASE_ && ks.out_params == &op && ks.ks0_raw == raw, "shape and parameters stored");
     VERIF_SIZE_GUARD(ks.ks1_raw, (size_t)n * T_ * sizeof(LweSample *)); VERIF_SIZE_GUARD(ks.ks, (size_t)n * sizeof(LweSample **));
-    __CPROVER_assert(ks.ks[gi][gj] + gh == raw + ((int64_t)(gi * T_ + gj) * BASE_ + gh), "ks[i][j][h] is element (i*t + j)*base + h of the contiguous array, for every i < n, j < t, h < base");
-    __CPROVER_assert(__CPROVER_r_ok(&ks.ks[gi][gj][gh], sizeof(LweSample)), "and lies inside that array");
+    /* stated level by level, as (object, byte offset): CBMC cannot dereference a pointer it loaded from memory havocked by a loop contract, so
+     * ks[i][j][h] is not written as a double dereference here; the two facts below say the same thing for every (i, j, h) */
+    __CPROVER_assert(__CPROVER_same_object(ks.ks1_raw[g_p1], raw) && __CPROVER_POINTER_OFFSET(ks.ks1_raw[g_p1]) == (__CPROVER_size_t)(BASE_ * g_p1) * sizeof(LweSample),
+                     "second level: entry p = i*t + j points to element p*base of the contiguous sample array, for every p < n*t (so ks[i][j][h] is element (i*t + j)*base + h)");
+    __CPROVER_assert(__CPROVER_same_object(ks.ks[gi], ks.ks1_raw) && __CPROVER_POINTER_OFFSET(ks.ks[gi]) == (__CPROVER_size_t)(T_ * gi) * sizeof(LweSample *),
+                     "first level: entry i points to entry i*t of the second level, for every i < n");
+    __CPROVER_assert((int64_t)(BASE_ * g_p1) + gh < (int64_t)n * T_ * BASE_, "every (i, j, h) lands inside the array");
     free(ks.ks1_raw); free(ks.ks); free(raw);
     VERIF_REACH();
 }
